@@ -28,6 +28,13 @@ type LoopSpec struct {
 	Decreases  *Clause
 }
 
+// SweepEntry: a function swept for panic freedom without a written contract.
+type SweepEntry struct {
+	Key   string
+	Props []string
+	File  string
+}
+
 type KnownSpec struct {
 	Prop  string
 	Label string // obligation label (suffix match on obligation name)
@@ -64,6 +71,8 @@ type Contract struct {
 	OnCalls  []OnCall
 	Trusted  bool
 	Replay   string
+	Closed   bool // every call site in the module must be in verified code (preconditions are not input assumptions)
+	Sweep    bool // synthesised by a sweep directive: callers keep inlining the function
 }
 
 // AllowPanic: a documented panic that the property tolerates, optionally only under a condition.
@@ -135,6 +144,8 @@ type ContractSet struct {
 	IfaceContracts map[string]*Contract // "gedcom.Node.AddNode"
 	Frames []*FrameSpec
 	PkgStates []*PkgStateSpec
+	Sweeps []SweepEntry
+	FieldInvs []*FieldInv
 	FieldGroups map[string][]string
 }
 
@@ -236,6 +247,42 @@ func (cs *ContractSet) LoadFile(file string) error {
 			}
 			curFrame = &FrameSpec{Key: key, File: where}
 			cs.Frames = append(cs.Frames, curFrame)
+			cur = nil
+			continue
+		}
+		if word == "fieldinv" {
+			// fieldinv C14 C03: Type.field, Type.field
+			k := strings.Index(rest, ":")
+			if k < 0 {
+				return fmt.Errorf("%s: fieldinv needs 'PROPS: Type.field, ...'", where)
+			}
+			props := strings.Fields(rest[:k])
+			for _, f := range strings.Split(rest[k+1:], ",") {
+				if f = strings.TrimSpace(f); f != "" {
+					cs.FieldInvs = append(cs.FieldInvs, &FieldInv{Key: "H." + pkg + "." + f, Props: props, File: where})
+				}
+			}
+			cur = nil
+			continue
+		}
+		if word == "sweep" {
+			// sweep C14: Recv.Method, Func, ...   (zero-annotation safety sweep)
+			k := strings.Index(rest, ":")
+			if k < 0 {
+				return fmt.Errorf("%s: sweep needs 'PROPS: funcs'", where)
+			}
+			props := strings.Fields(rest[:k])
+			for _, f := range strings.Split(rest[k+1:], ",") {
+				f = strings.TrimSpace(f)
+				if f == "" {
+					continue
+				}
+				key := f
+				if !strings.HasPrefix(f, pkg+".") {
+					key = pkg + "." + f
+				}
+				cs.Sweeps = append(cs.Sweeps, SweepEntry{Key: key, Props: props, File: where})
+			}
 			cur = nil
 			continue
 		}
@@ -462,6 +509,8 @@ func (cs *ContractSet) LoadFile(file string) error {
 				cur.Pure = true
 				cur.AssignsSet = true
 				cur.Assigns = []string{"nothing"}
+			case "closed":
+				cur.Closed = true
 			case "inline":
 				cur.Inline = true
 			case "trusted":
@@ -701,4 +750,26 @@ func splitTopLevel(s string, sep rune) []string {
 		}
 	}
 	return append(out, s[start:])
+}
+
+// applySweeps turns sweep entries into safety-only contracts. A function that
+// already has a written contract keeps it and gains the property and the
+// safety obligations.
+func (cs *ContractSet) applySweeps() {
+	for _, sw := range cs.Sweeps {
+		if c, ok := cs.Funcs[sw.Key]; ok {
+			if c.Trusted || c.Extern {
+				continue
+			}
+			for _, p := range sw.Props {
+				if !hasProp(c.Props, p) {
+					c.Props = append(c.Props, p)
+				}
+			}
+			c.Safety = true
+			continue
+		}
+		cs.Funcs[sw.Key] = &Contract{Key: sw.Key, Pkg: strings.SplitN(sw.Key, ".", 2)[0], Props: append([]string{}, sw.Props...),
+			Safety: true, Sweep: true, File: sw.File, Loops: map[int]*LoopSpec{}}
+	}
 }
